@@ -8,6 +8,7 @@ expectation (result predicate / exception class).  Independent references: the b
 (one count per finished operation, failed ones included), bytes.decode as the model of which reply prefixes are
 valid UTF-8 (classification of the known truncation defect), and substring search for the password (plain,
 escaped and base64) in every captured log record, log file, stderr stream, recorder file, str() and repr()."""
+import atexit
 import base64
 import datetime
 import io
@@ -35,12 +36,14 @@ warnings.simplefilter('ignore')
 logging.raiseExceptions = False     # logging's own error reports (e.g. ASCII-only stream) are not under test
 
 R = Run('50 operation scenarios (all 40 WBEMConnection operations incl. 7 Iter*, InvokeMethod parameter variants, '
-        'class-level and empty results, pull fallback, abandoned iterator) x 20 steps (3 non-ASCII successes, 2 CIM errors, 6 parse errors, 3 HTTP errors, '
-        '3 connection errors, 2 bad parameters, closed connection) x observer configurations {api,http,all} x '
-        '{all,paths,summary,None,ints 0..1000} x dest {stderr,ascii-stderr,file,None,off} x activation {conn,global,copy()} x '
-        'TestClientRecorder x recorders enabled/disabled x stats x debug creds tuple/list (quick: 67 configs, rotating subset per '
-        'operation; thorough: 127 configs, all) + http/api max-length sweep over every byte offset of a reply (quick: around '
-        'multi-byte characters) + direct LogOperationRecorder.stage_http_request Authorization masking')
+        'class-level and empty results, pull fallback, abandoned iterator) x 20 steps (3 non-ASCII successes, '
+        '2 CIM errors, 6 parse errors, 3 HTTP errors, 3 connection errors, 2 bad parameters, closed connection) x '
+        'observer configurations {api,http,all} x {all,paths,summary,None,ints 0..1000} x dest {stderr,ascii-stderr,'
+        'file,None,off} x activation {conn,global,copy()} x TestClientRecorder x recorders enabled/disabled x stats x '
+        'debug x creds tuple/list (quick: 67 configs, rotating subset of 9 per operation, all for 4 core operations; '
+        'thorough: 127 configs, all) + http/api max-length sweep over every byte offset of 3 replies (quick: around '
+        'multi-byte characters) + direct LogOperationRecorder.stage_http_request Authorization masking + rejected '
+        'logger configurations')
 
 URL = 'http://wbem.example:5988'
 USER = 'usr_Ab'
@@ -51,6 +54,7 @@ OKH = {'Content-type': 'application/xml; charset="utf-8"', 'CIMOperation': 'Meth
 LOGGERS = ('pywbem.api', 'pywbem.http')
 SHM = '/dev/shm' if os.path.isdir('/dev/shm') else None
 TMPDIR = tempfile.mkdtemp(prefix='c19_', dir=SHM)
+atexit.register(shutil.rmtree, TMPDIR, ignore_errors=True)
 REAL_STDERR = sys.stderr
 
 
@@ -424,8 +428,8 @@ BADTYPE = {
 
 # response kinds; every kind is applied to every operation (first request of multi-request operations)
 OKS = ('ok', 'ok2', 'ok3')
-KINDS = ['ok2', 'ok3', 'ok', 'cimerr', 'cimerr-inst', 'badxml', 'badcim', 'wrongname', 'empty', 'http500', 'http401', 'http404',
-         'ctype', 'connerr', 'timeout', 'maxretry', 'badparam', 'badtype', 'badutf8', 'closed']
+KINDS = ['ok2', 'ok3', 'ok', 'cimerr', 'cimerr-inst', 'badxml', 'badcim', 'wrongname', 'empty', 'http500', 'http401',
+         'http404', 'ctype', 'connerr', 'timeout', 'maxretry', 'badparam', 'badtype', 'badutf8', 'closed']
 ERRINST = ('<INSTANCE CLASSNAME="CIM_Error"><PROPERTY NAME="Message" TYPE="string"><VALUE>' + S +
            '</VALUE></PROPERTY></INSTANCE>')
 
@@ -561,8 +565,8 @@ def build_configs():
     for name in ('all', 'http'):
         cfgs.append(Cfg(Log(name, 'off', 'all', 'conn'), name == 'http', True, True, False, i % 3))
         i += 1
-    for lg, t in ((None, False), (Log('all', 'stderr', 'all', 'conn'), True), (Log('api', 'file', 'summary', 'global'), False),
-                  (Log('http', 'stderr', 'paths', 'copy'), False)):
+    for lg, t in ((None, False), (Log('all', 'stderr', 'all', 'conn'), True),
+                  (Log('api', 'file', 'summary', 'global'), False), (Log('http', 'stderr', 'paths', 'copy'), False)):
         cfgs.append(Cfg(lg, t, True, False, False, CREDS_LIST))
     if R.tier == 'thorough':
         j = 0
